@@ -238,6 +238,9 @@ def _appended_to(P, k, b, payload):
 
 
 def glue(P, rep):
+    # link 0: the parsed mnemonic and operands reach the item list unchanged
+    import lineitems
+    lineitems.check(P, rep, "C01.glue|line", want_labels=False, want_instruction=True)
     k2 = "builder::pass2::pass_2_internal"
     kb = "builder::pass2::build_pass_2"
     kf = "builder::build_from_parsed"
